@@ -495,8 +495,8 @@ Variable s : wstate.
 Hypothesis Hleg : legacy_net s && (s_height s <? 978392) = false.
 Hypothesis Hcover : forall t k1, In t (sorted_txs s) -> tx_pool t = Some k1 -> In k1 K /\ LDk SO k1 <> fst k1 /\ LDk SO k1 <> snd k1.
 Hypothesis Hkeys : NoDup (key_pairs (sorted_txs s)).
-Hypothesis Hd0 : forall t c, In t (sorted_txs s) -> s_coins s !! key0 t = Some c -> as_declared c (out0 t).
-Hypothesis Hd1 : forall t c, In t (sorted_txs s) -> s_coins s !! key1 t = Some c -> as_declared c (out1 t).
+Hypothesis Hd0 : forall t c, In t (sorted_txs s) -> s_coins s !! key0 t = Some c -> as_declared t c (out0 t).
+Hypothesis Hd1 : forall t c, In t (sorted_txs s) -> s_coins s !! key1 t = Some c -> as_declared t c (out1 t).
 Hypothesis Hs0 : nsum (map (fun t => cd_value (out0 t)) (sorted_txs s)) < U128.
 Hypothesis Hs1 : nsum (map (fun t => cd_value (out1 t)) (sorted_txs s)) < U128.
 Hypothesis Hsat : forall s2, process_swaps (create_builtins s) = Ok s2 ->
@@ -541,7 +541,9 @@ Proof.
       unfold is_withdraw_request in Hr. apply andb_true_iff in Hr as [Hr Hden]. apply andb_true_iff in Hr as [_ Hc].
       rewrite Etp in Hden. destruct (get_pool s3 k); [|discriminate]. apply denom_eqb_eq in Hden.
       unfold has_coin in Hc. fold (key0 t) in Hc. destruct (s_coins s3 !! key0 t) as [c|] eqn:Ec; [|discriminate].
-      destruct (Hdw t c Hin Ek Ec) as [D V]. exists c. split; [reflexivity|]. split; [rewrite D; exact Hden|exact V]. }
+      destruct (Hdw t c Hin Ek Ec) as [D V].
+      rewrite (fix_denom_id t (cd_denom (out0 t))) in D by (rewrite Hden; discriminate).
+      exists c. split; [reflexivity|]. split; [rewrite D; exact Hden|exact V]. }
   pose proof (sat_sum_le (map (fun t => cd_value (out0 t)) ws)). fold ws. lia.
 Qed.
 
